@@ -80,7 +80,7 @@ Definition val (c : option clause) : option Z := option_map c_val c.
    syntax is what the T2 translator regenerates from the Python AST on every run *)
 Inductive rncol := RowNum | OraRn | MssqlRn.          (* ROWNUM, ora_rn, mssql_rn *)
 Inductive cmp := CLt | CLe | CGt | CGe | CEq | CNe.
-Inductive arith := ALim | AOff | AAdd (a b : arith) | AUnset.
+Inductive arith := ALim | AOff | AAdd (a b : arith).
 Definition pred := (cmp * arith)%type.                (* <numbering column> cmp arith *)
 Definition tpred := (rncol * pred)%type.
 
@@ -320,7 +320,6 @@ Fixpoint arith_eval (lim off : option Z) (a : arith) : Z :=
   | ALim => opt0 lim
   | AOff => opt0 off
   | AAdd x y => arith_eval lim off x + arith_eval lim off y
-  | AUnset => 0
   end.
 Definition preds_hold (lim off : option Z) (ps : list pred) (rn : Z) : bool :=
   forallb (fun p => cmp_eval (fst p) rn (arith_eval lim off (snd p))) ps.
